@@ -24,16 +24,22 @@ class ConcreteHandlerMixin:
         ]
         return [tuple((c if c is not None else r.pop(0)) for c in concrete_exprs) for r in symbolic_results]
 
+    @staticmethod
+    def _signed_reading(e, c):
+        # like the backend, a signed query answers with the signed reading of the value
+        n = getattr(e, "length", None)
+        return c - 2**n if n and isinstance(c, int) and c >= 2 ** (n - 1) else c
+
     def max(self, e, extra_constraints=(), signed=False, exact=None):
         c = self._concrete_value(e)
         if c is not None:
-            return c
+            return self._signed_reading(e, c) if signed else c
         return super().max(e, extra_constraints=extra_constraints, signed=signed, exact=exact)
 
     def min(self, e, extra_constraints=(), signed=False, exact=None):
         c = self._concrete_value(e)
         if c is not None:
-            return c
+            return self._signed_reading(e, c) if signed else c
         return super().min(e, extra_constraints=extra_constraints, signed=signed, exact=exact)
 
     def solution(self, e, v, extra_constraints=(), exact=None):
